@@ -106,8 +106,10 @@ Definition erase (names : bool) (d : dot) : dot :=
    about labels on order / constant / function / control-flow edges.  `spec_b` above is the specification the model
    (like today's code) meets - metadata lines present, non-value edges unlabelled; `spec_p_b` keeps exactly the
    promised part of each clause. *)
+(* which of the two display names (with or without the extension prefix) a configuration shows is not promised -
+   only that nothing but the prefix depends on the option, which the monitor checks across configurations *)
 Definition carries_p_b (c : config) (i : ninfo) (s : nstmt) : bool :=
-  Z.eqb (ns_id s) (ni_idx i) && str_eqb (ns_label s) (display c i) &&
+  Z.eqb (ns_id s) (ni_idx i) && (str_eqb (ns_label s) (ni_name_q i) || str_eqb (ns_label s) (ni_name_u i)) &&
   list_eqb Z.eqb (ns_in s) (map Z.of_nat (seq 0 (ni_nin i))) &&
   list_eqb Z.eqb (ns_out s) (map Z.of_nat (seq 0 (ni_nout i))).
 Definition stmts_promised_b (c : config) (h : hview) (d : dot) : bool :=
